@@ -28,10 +28,20 @@ ASSUMPTIONS = ["graphs <= 7 nodes / 10 edges so that brute force over edge subse
 def gen_world(seed, tier):
     rng = random.Random(H(seed, "c17"))
     graphs = []
+    rf = random.Random(H(seed, "c17float"))
     for _ in range(rng.choice([1, 1, 2])):
         r = rng.random()
         if r < 0.5:
             g = gen.dag_layered(rng, max_nodes=7, max_edges=10, max_routes=4, wmax=rng.choice([9, 9, 1000]))
+            if rf.random() < 0.3 and g.get("routes"):
+                # "all weight functions": decimal float weights (0.1-steps), whose sums and differences are inexact in binary
+                ws = [round(0.1 * rf.randint(1, 40), 1) for _ in g["routes"]]
+                flow = {}
+                for r_, w_ in zip(g["routes"], ws):
+                    for e_ in zip(r_[:-1], r_[1:]):
+                        flow[e_] = flow.get(e_, 0) + w_
+                g["edges"] = [[u, v, flow.get((u, v), 0)] for u, v, _ in g["edges"]]
+                g["weights"] = ws
         elif r < 0.8:
             g = gen.digraph_cyclic(rng, max_nodes=6, max_edges=8, max_routes=3)
         else:
